@@ -131,7 +131,13 @@ def _summary_transform(fi: FunctionInfo) -> Dict[str, str]:
         "src_lower": repr(lin(S.lower, env)),
         "src_upper": repr(lin(S.upper, env)),
         "factor": src_of(_slice(c.args[1]).lower),
-        "record_before_write": str(len(rec) == 1 and rec[0].lineno < c.lineno and src_of(rec[0].value) == f"new_index.append({src_of(D.lower)})"),
+        "record_before_write": str(
+            len(rec) == 1
+            and rec[0].lineno < c.lineno
+            and src_of(rec[0].value) == f"new_index.append({src_of(D.lower)})"
+            # recorded for EVERY feature, also when the block is empty and the loop exits early
+            and all(rec[0].lineno < x.lineno for x in ast.walk(inner) if isinstance(x, (ast.Break, ast.Continue)))
+        ),
         "close": str([src_of(s) for s in post] == ["new_index.append(pos)", "index = new_index"]),
         "reset": str(any(src_of(s) == "new_index = []" for s in pre)),
     }
@@ -231,6 +237,16 @@ def check_b(ck, repo):
                 ck.verdict(va == "True" and vb == "True", "C11.b", tf if va != "True" else names, label, "both recurrences have this step", f"step '{k}' is {va} in {tname} and {vb} in the names recurrence: names no longer describe the columns")
             else:
                 ck.verdict(va == vb, "C11.b", names, label + f" = {va}", "identical in both recurrences", f"{k}: {tname} uses {va} but the names recurrence uses {vb}: column j is not named by the monomial it contains")
+    # the names function is a pure function of the fitted configuration: no instance cache
+    stores = [x for x in own_nodes(names.node) if isinstance(x, (ast.Assign, ast.AugAssign)) and any(isinstance(t, ast.Attribute) and isinstance(t.value, ast.Name) and t.value.id == "self" for t in (x.targets if isinstance(x, ast.Assign) else [x.target]))]
+    ck.verdict(not stores, "C11.b", names, stores[0] if stores else "no store to self.* in _get_feature_names_poly", "names are recomputed from the current parameters at every call", "feature names are cached on the instance: after set_params (degree, flags) and a refit, names, n_output_features_ and the transform width describe the previous configuration")
+    rets = [src_of(r.value) for r in own_nodes(names.node) if isinstance(r, ast.Return)]
+    ck.verdict(rets == ["names"], "C11.b", names, f"returns {rets}", "single exit returning the names built by the recurrence", f"_get_feature_names_poly returns {rets}: some path returns something else than the names built by the recurrence")
+    pn = [f for f in repo.all_functions.values() if f.parent is names and f.name == "process_name"]
+    if pn:
+        par = pn[0].named_params[0]
+        raw = [c for c in own_nodes_incl_lambda(pn[0].node) if isinstance(c, ast.Call) and isinstance(c.func, ast.Attribute) and c.func.attr in ("count", "find", "index") and isinstance(c.func.value, ast.Name) and c.func.value.id == par]
+        ck.verdict(not raw, "C11.b", pn[0], raw[0] if raw else "exponents counted on the token list", "exponents are counted over whole factor names", f"`{src_of(raw[0]) if raw else ''}` counts substring occurrences in the joined name: 'x1' is also counted inside 'x10', so a column is named by another monomial than the one it contains")
     # dispatchers
     kinds = {}
     for m in ("get_feature_names_out", "fit", "transform"):
@@ -302,6 +318,9 @@ WITNESSES = [
     {"name": "names-source-from-previous-index", "file": _E, "rule": "C11.b", "old": "start = a + (index[i + 1] - index[i] if interaction_only else 0)", "new": "start = a + (index[i + 1] - index[i] if not interaction_only else 0)"},
     {"name": "names-other-factor", "file": _E, "rule": "C11.b", "old": '[a + " " + input_features[i] for a in names[start:end]]', "new": '[a + " " + input_features[n - 1 - i] for a in names[start:end]]'},
     {"name": "iall-record-after-write", "file": _P, "rule": "C11.b", "old": "                a = index[i]\n                new_index.append(pos)\n                new_pos = pos + end - a\n", "new": "                a = index[i]\n                new_pos = pos + end - a\n                new_index.append(new_pos)\n"},
+    {"name": "ionly-record-after-break", "file": _P, "rule": "C11.b", "old": "                a = index[i]\n                new_index.append(pos)\n                dec = index[i + 1] - index[i]\n                new_pos = pos + end - a - dec\n                if new_pos <= pos:\n                    break\n", "new": "                a = index[i]\n                dec = index[i + 1] - index[i]\n                new_pos = pos + end - a - dec\n                if new_pos <= pos:\n                    break\n                new_index.append(pos)\n"},
+    {"name": "names-cached", "file": _E, "rule": "C11.b", "old": "        names = [process_name(s) for s in names]\n        return names\n", "new": "        names = [process_name(s) for s in names]\n        self._names_cache_ = names\n        return names\n"},
+    {"name": "names-substring-count", "file": _E, "rule": "C11.b", "old": "            scol = col.split()\n            res = []\n            for c in sorted(scol):\n                if not res or res[-1][0] != c:\n                    res.append((c, 1))\n                else:\n                    res[-1] = (c, res[-1][1] + 1)\n", "new": "            res = [(c, col.count(c)) for c in sorted(set(col.split()))]\n"},
     {"name": "transform-flag-inverted", "file": _E, "rule": "C11.b", "old": "        if self.poly_interaction_only:\n            return _transform_ionly(", "new": "        if not self.poly_interaction_only:\n            return _transform_ionly("},
     {"name": "transform-degree-bias-swapped", "file": _E, "rule": "C11.b", "old": "        return _transform_iall(\n            self.poly_degree, self.poly_include_bias, XP, X, multiply, final\n", "new": "        return _transform_iall(\n            self.poly_include_bias, self.poly_degree, XP, X, multiply, final\n"},
     {"name": "slow-kind-uses-fast-names", "file": _E, "rule": "C11.b", "old": "            self.poly_interaction_only,\n            include_bias=self.poly_include_bias,", "new": "            self.poly_interaction_only,\n            include_bias=True,"},
